@@ -156,6 +156,9 @@ RETURNS = [
     ("retlong", OrderedDict((("doc", "the result that is described at considerable length so that the emitted line certainly exceeds the wrap width of one hundred columns"), ("typ", "int")))),
 ]
 
+# a return entry with only a description / only a type (used by edge_space)
+RETURNS_PARTIAL = [("retdoconly", OrderedDict((("doc", "the result"),))), ("rettyponly", OrderedDict((("typ", "int"),)))]
+
 HEADERS = [("one", "Summary line."), ("two", "Summary line.\n\nLonger description of the thing\nover two lines."), ("empty", "")]
 
 
@@ -172,7 +175,7 @@ def mk_ir(params, ret=None, doc="Summary line.", name=None):
     }
 
 
-def ir_space(k1_alpha, kn_alpha, max_k, returns_1=RETURNS, returns_n=RETURNS[:2], headers=HEADERS[:1], names1=("alpha",), alt_names=ALT_NAMES, wide=True):
+def ir_space(k1_alpha, kn_alpha, max_k, returns_1=RETURNS, returns_n=RETURNS[:2], headers=HEADERS[:1], names1=("alpha",), alt_names=ALT_NAMES, wide=True, edges=False):
     """
     I(1) = every kind in k1_alpha x returns_1 x headers x names1 ; I(k), 2<=k<=max_k = all ordered k-tuples over kn_alpha x returns_n.
     Yields (case_key, ir) where case_key is a JSON-able description: {"kinds": [...], "ret": .., "hdr": .., "names": [...]}
@@ -198,6 +201,28 @@ def ir_space(k1_alpha, kn_alpha, max_k, returns_1=RETURNS, returns_n=RETURNS[:2]
                 )
     if wide and max_k >= 2:
         yield from wide_space(kn_alpha)
+    if edges:
+        yield from edge_space(kn_alpha)
+
+
+def edge_space(kn_alpha, headers=None):
+    """
+    Counts at the edge: interfaces with NO parameter x every return kind (also the partial ones) x every header, and interfaces with one
+    parameter (first three kinds of kn_alpha) x the partial return kinds x every header.
+    """
+    headers = HEADERS if headers is None else headers
+    for (rk, r), (hk, h) in itertools.product(RETURNS + RETURNS_PARTIAL, headers):
+        yield dict(kinds=[], ret=rk, hdr=hk, names=[]), mk_ir([], r, h)
+    for (kind, p), (rk, r), (hk, h) in itertools.product(kn_alpha[:3], RETURNS_PARTIAL, headers):
+        yield dict(kinds=[list(kind)], ret=rk, hdr=hk, names=["alpha"]), mk_ir([("alpha", p)], r, h)
+
+
+def partial_return(ir):
+    """None, or which half a return entry consists of ('doconly' / 'typonly'): a signature feature"""
+    r = (ir.get("returns") or {}).get("return_type")
+    if not r:
+        return None
+    return "doconly" if "typ" not in r and r.get("doc") else "typonly" if "typ" in r and not r.get("doc") else None
 
 
 def wide_space(kn_alpha, ks=(4, 5, 8)):
